@@ -213,6 +213,8 @@ func (this *DefaultOutputBitStream) push(val uint64) {
 // Write buffer into underlying stream
 func (this *DefaultOutputBitStream) flush() error {
 	if this.Closed() {
+		// Drop the bits of the refused write so that Written() is not affected
+		this.position = 0
 		return errors.New("Stream closed")
 	}
 
